@@ -91,6 +91,7 @@ class Stats:
 def _shard_entry(fn, arg, conn):
     try:
         from . import hermetic
+        hermetic.forget_base()       # never share (or delete) the parent's scratch directory
         res = fn(*arg)
         conn.send(("ok", res.pack() if isinstance(res, Stats) else res))
     except BaseException as e:  # noqa
